@@ -41,8 +41,9 @@ def attached_comments(rd: cst.Reading, start: int, end: int) -> set[int]:
     if idx_after is not None:
         j = idx_after
         last_row = rd.leaves[idx_after - 1].row1 if idx_after > 0 else -1
-        while j < len(leaves) and leaves[j].type == "comment":
-            # trailing comments up to the next code token (end-of-line comment, set trailer)
+        while j < len(leaves) and leaves[j].type == "comment" and leaves[j].row0 == last_row:
+            # the end-of-line comment on the binding's last line; own-line comments that follow
+            # (e.g. the closing comments of the set) are not attached to the binding
             att.add(leaves[j].start)
             j += 1
     return att
@@ -88,6 +89,8 @@ def judge_tokens(dv_in: A.DocView, op, res, pred: M.Prediction, segs: list[str],
         b = loc_in[0][loc_in[1]]
         cut_in = (b.start, b.end)
         optional = attached_comments(rin, b.start, b.end)
+        # how the removed binding is written: `a.b = v;` bindings live in a second structure
+        base_key["written"] = "dotted" if len(getattr(b, "path", ()) or ()) > 1 else "plain"
         base_key["position"] = ("only" if len(loc_in[0]) == 1 else
                                 ("first" if loc_in[1] == 0 else
                                  ("last" if loc_in[1] == len(loc_in[0]) - 1 else "middle")))
@@ -120,6 +123,8 @@ def judge_tokens(dv_in: A.DocView, op, res, pred: M.Prediction, segs: list[str],
         k = dict(base_key)
         if ia is not None and ia[0] == "comment" and (ib is None or ib[1] != ia[1]):
             k["effect"] = "foreign-comment-lost"
+            if cut_in is not None:
+                k["lost"] = "after-binding" if ia[2].start >= cut_in[1] else "before-binding"
         elif ib is not None and ib[0] == "comment":
             k["effect"] = "foreign-comment-added-or-moved"
         else:
@@ -294,8 +299,7 @@ def judge_bytes(dv_in: A.DocView, op, res, pred: M.Prediction, segs: list[str], 
         z = last
         while z + 1 < len(lines) and lines[z + 1].lstrip().startswith("#"):
             z += 1
-        if z != last and loc_in[1] == len(loc_in[0]) - 1:
-            ends.append(z)
+        # (closing comments of the set are not attached to its last binding: not optional)
         for s0 in starts:
             for e0 in ends:
                 candidates.append("\n".join(lines[:s0] + lines[e0 + 1:]))
